@@ -4,6 +4,7 @@ import (
 	"encoding/binary"
 	"fmt"
 	"log"
+	"math"
 	"sync"
 
 	"github.com/janelia-flyem/dvid/datastore"
@@ -476,6 +477,18 @@ func (d *Data) GetBlocks(v dvid.VersionID, start dvid.ChunkPoint3d, span int32) 
 
 	// Allocate one uncompressed-sized slice with background values.
 	blockBytes := int32(d.BlockSize().Prod()) * d.Values.BytesPerElement()
+
+	// Check the requested size in int64 since offsets into the buffer are int32.
+	if span < 0 {
+		return nil, fmt.Errorf("span of blocks must not be negative, got %d", span)
+	}
+	maxBytes := server.MaxDataRequest
+	if maxBytes > math.MaxInt32 {
+		maxBytes = math.MaxInt32
+	}
+	if int64(blockBytes)*int64(span) > maxBytes {
+		return nil, fmt.Errorf("requested %d blocks of %d bytes exceeds the limit of %d bytes", span, blockBytes, maxBytes)
+	}
 	numBytes := blockBytes * span
 
 	buf := make([]byte, numBytes, numBytes)
